@@ -27,7 +27,50 @@ class A:
     b: int = 7
 
 
+@dataclass
+class P2:
+    """a sibling class of P with the same fields"""
+
+    a: int
+    b: int = 5
+    c: list = field(default_factory=list)
+
+
+@dataclass
+class PSub(P):
+    pass
+
+
+@attrs.define
+class A2:
+    a: int
+    b: int = 7
+
+
 NT = namedtuple("NT", "a,b", defaults=[3])
+NT2 = namedtuple("NT2", "a,b", defaults=[3])
+
+try:
+    from typing import Any as _Any
+
+    import pydantic as _pydantic
+
+    class Basket(_pydantic.BaseModel):
+        owner: _Any
+        n: _Any = 5
+        items: list = _pydantic.Field(default_factory=list)
+        inner: _Any = None
+
+    def basket_mut(owner, item):
+        """a model whose fields are filled in place after construction"""
+        b = Basket(owner=owner)
+        b.items.append(item)
+        b.n = item
+        return b
+
+except Exception:  # pragma: no cover
+    Basket = None
+    basket_mut = None
 
 
 class Color(enum.Enum):
@@ -56,4 +99,6 @@ class Weird:
         return self.v == other.v
 
 
-SUPPORT_NS = {"P": P, "Q": Q, "A": A, "NT": NT, "Color": Color, "Perm": Perm, "Weird": Weird}
+SUPPORT_NS = {"P": P, "P2": P2, "PSub": PSub, "Q": Q, "A": A, "A2": A2, "NT": NT, "NT2": NT2, "Color": Color, "Perm": Perm, "Weird": Weird}
+if Basket is not None:
+    SUPPORT_NS.update({"Basket": Basket, "basket_mut": basket_mut})
